@@ -18,6 +18,21 @@ On top of AutoEvaluator the evaluator used here
   * writes equivalent library idioms the same way:  np.any(x) / x.any() / any(x);  np.where(c) / np.nonzero(c) / c.nonzero();
     np.shape(x) / x.shape;  np.argsort(x) / x.argsort();  np.searchsorted(a, v, ..) / a.searchsorted(v, ..);
     x.astype(T) / np.array(x, dtype=T) / np.asarray(x, T) / np.ascontiguousarray(x, T).
+
+Second hardening pass (neutral patches N5-N8):
+
+  * the functions are read *as written* (c18_fold.raw_func): no alpha-renaming / temporary-inlining pass in between;
+  * helpers are followed when they are not part of the module's interface (`__all__` if the module has one, else: underscore or undocumented),
+    module-level constants are folded (sem.module_consts);
+  * local lists / dicts with known items are values (`L = []`, `L.append(x)`, `L[k] = x`, `a, b = L`, `T = {}`, `T["k"] = x`); a loop over a
+    literal sequence / a list of known items / range(constants) / enumerate / zip of such is executed item by item (break / continue
+    honoured), a comprehension over such a sequence is the list of its element values;
+  * a loop nest that only appends to a list is the comprehension with the same generators and conditions (loops <-> comprehensions);
+  * ufunc / operator-module spellings are the operators: np.not_equal / equal / greater / ... -> cmp:*, np.bitwise_and / or / xor -> mask:*,
+    np.logical_and / or (boolean operands; otherwise (x != 0) & (y != 0)), np.logical_not / invert, np.take -> idx, np.compress -> idx;
+  * `x in (a, b)` on a literal collection is cmp:In(x, tuple(a, b));  f"{x}" / "%d" % x / "{}".format(x) / format(x) are str(x);
+  * arrays without elements (np.empty(0), np.zeros((0, 2)), np.array([])) are the one value EMPTY (`is_empty`);
+  * a test written as a count of true elements (count_nonzero(m) > 0, m.sum(), len(nonzero(m)[0])) is any(m) (`truthy`).
 """
 from __future__ import annotations
 
@@ -212,6 +227,9 @@ def strip(v, names=("astype",)):
 
 
 # ---------------------------------------------------------------------------------------------------------------- atoms
+_LITERALS = ("None", "True", "False")
+
+
 def norm_atom(v):
     """test value -> (canonical value or None, polarity, constant truth or None)"""
     pol = True
@@ -239,6 +257,14 @@ def norm_atom(v):
             if cx is not None and cy is not None and op in ("Eq", "NotEq", "Lt", "LtE", "Gt", "GtE"):
                 r = {"Eq": cx == cy, "NotEq": cx != cy, "Lt": cx < cy, "LtE": cx <= cy, "Gt": cx > cy, "GtE": cx >= cy}[op]
                 return None, pol, r == pol
+            if op in ("Eq", "NotEq", "Is", "IsNot"):
+                # None / True / False against each other or against a number: decided (a flag pinned to 1 / 0 stands for True / False)
+                lx, ly = sym_of(x) if sym_of(x) in _LITERALS else None, sym_of(y) if sym_of(y) in _LITERALS else None
+                vx = lx if lx is not None else (("True" if cx == 1 else "False") if cx in (0, 1) else ("number" if cx is not None else None))
+                vy = ly if ly is not None else (("True" if cy == 1 else "False") if cy in (0, 1) else ("number" if cy is not None else None))
+                if vx is not None and vy is not None and (lx is not None or ly is not None):
+                    r = vx == vy
+                    return None, pol, (r if op in ("Eq", "Is") else not r) == pol
             if op in ("NotEq", "IsNot", "NotIn"):
                 pol = not pol
                 op = {"NotEq": "Eq", "IsNot": "Is", "NotIn": "In"}[op]
@@ -793,6 +819,14 @@ class PathEval(AutoEvaluator):
         if d in ("format", "repr") and plain1 and d not in self.env:
             (x,), _ = self._args(node)
             return NotImplemented if isinstance(x, tuple) else _str_of(x)
+        # bool(k) / int(k) of a constant or of True / False
+        if d in ("bool", "int") and plain1 and d not in self.env:
+            (x,), _ = self._args(node)
+            k = const_of(x) if not isinstance(x, tuple) else None
+            if k is None and not isinstance(x, tuple) and sym_of(x) in ("True", "False"):
+                k = 1 if sym_of(x) == "True" else 0
+            if k is not None and (d == "bool" or k.denominator == 1 if hasattr(k, "denominator") else True):
+                return F.const(int(k != 0) if d == "bool" else int(k))
         # reductions
         if d in _REDUCE and len(node.args) == 1 and not node.keywords:
             (x,), _ = self._args(node)
@@ -951,7 +985,9 @@ class Path:
         return " and ".join(out) or "always"
 
 
-def explore(ctx, rel, qual):
+def explore(ctx, rel, qual, pinned=None):
+    """`pinned`: {parameter: value} - evaluate the function for that value of a parameter (a flag pinned to F.const(1) / F.const(0) is True / False
+    wherever it is tested, converted with bool() / int() or used in arithmetic)"""
     fn = raw_func(ctx, rel, qual)
     work = [dict()]
     out = []
@@ -960,6 +996,8 @@ def explore(ctx, rel, qual):
         dec = work.pop()
         trace, sites = [], []
         ev = PathEval(fn, ctx, rel, dec, trace, sites, qual=qual)
+        if pinned:
+            ev.env.update(pinned)
         runs += 1
         if runs > 4 * MAX_PATHS:
             raise Unsupported(f"{qual}: too many regimes")
